@@ -2,8 +2,10 @@ package c06
 
 import (
 	"fmt"
+	"go/constant"
 	"go/token"
 	"go/types"
+	"math"
 	"strings"
 
 	"golang.org/x/tools/go/ssa"
@@ -192,7 +194,17 @@ func minmaxSources(acc ssa.Value) (fnNames map[string]bool, data []ssa.Value, in
 		seen[v] = true
 		switch x := v.(type) {
 		case *ssa.Phi:
-			for _, e := range x.Edges {
+			for i, e := range x.Edges {
+				// `if d < acc { acc = d }` / `if d > acc { acc = d }`: the edge carries the datum, the branch
+				// that selects it compares it with the accumulator
+				if name, ok := comparedReduction(x, i, e); ok {
+					fnNames[name] = true
+					data = append(data, e)
+					continue
+				}
+				if emptyDataEdge(x, i) {
+					continue // default that survives only when there is no element at all
+				}
 				walk(e, d+1)
 			}
 		case *ssa.Call:
@@ -219,6 +231,232 @@ func minmaxSources(acc ssa.Value) (fnNames map[string]bool, data []ssa.Value, in
 	}
 	walk(acc, 0)
 	return
+}
+
+// comparedReduction: edge i of phi carries value e, and the predecessor it comes from is selected by
+// a branch comparing e with an accumulator (a phi): e < acc ⇒ "Min", e > acc ⇒ "Max".
+func comparedReduction(phi *ssa.Phi, i int, e ssa.Value) (string, bool) {
+	if _, isPhi := e.(*ssa.Phi); isPhi {
+		return "", false
+	}
+	if b, ok := e.Type().Underlying().(*types.Basic); !ok || b.Info()&types.IsFloat == 0 {
+		return "", false
+	}
+	pred := phi.Block().Preds[i]
+	for _, ec := range edgeConds(pred) {
+		bo, ok := ec.cond.(*ssa.BinOp)
+		if !ok {
+			continue
+		}
+		var op token.Token
+		switch {
+		case bo.X == e && leadsToAcc(bo.Y):
+			op = bo.Op
+		case bo.Y == e && leadsToAcc(bo.X):
+			switch bo.Op { // acc op e  ==>  e op' acc
+			case token.LSS:
+				op = token.GTR
+			case token.LEQ:
+				op = token.GEQ
+			case token.GTR:
+				op = token.LSS
+			case token.GEQ:
+				op = token.LEQ
+			default:
+				continue
+			}
+		default:
+			continue
+		}
+		if !ec.pos {
+			op = negOp(op)
+		}
+		switch op {
+		case token.LSS, token.LEQ:
+			return "Min", true
+		case token.GTR, token.GEQ:
+			return "Max", true
+		}
+	}
+	return "", false
+}
+
+// emptyDataEdge: edge i of phi is taken exactly when the iterator whose first element arrives on another
+// edge is empty (`if it.Len() > 0 { acc = it.At(0) }`): the value on it never meets an element.
+func emptyDataEdge(phi *ssa.Phi, i int) bool {
+	if _, isConst := phi.Edges[i].(*ssa.Const); !isConst {
+		return false
+	}
+	pred := phi.Block().Preds[i]
+	ifi, ok := pred.Instrs[len(pred.Instrs)-1].(*ssa.If)
+	if !ok || pred.Succs[0] == pred.Succs[1] {
+		return false
+	}
+	onTrue := pred.Succs[0] == phi.Block()
+	bo, ok := ifi.Cond.(*ssa.BinOp)
+	if !ok {
+		return false
+	}
+	lenSide, c, op := bo.X, bo.Y, bo.Op
+	if _, isC := ssau.ConstInt(lenSide); isC { // 0 < len
+		lenSide, c = bo.Y, bo.X
+		switch op {
+		case token.LSS:
+			op = token.GTR
+		case token.LEQ:
+			op = token.GEQ
+		case token.GTR:
+			op = token.LSS
+		case token.GEQ:
+			op = token.LEQ
+		}
+	}
+	k, isC := ssau.ConstInt(c)
+	if !isC {
+		return false
+	}
+	if !onTrue {
+		op = negOp(op)
+	}
+	empty := (op == token.EQL && k == 0) || (op == token.LEQ && k == 0) || (op == token.LSS && k == 1)
+	if !empty {
+		return false
+	}
+	lc, ok := lenSide.(*ssa.Call)
+	if !ok {
+		return false
+	}
+	var recv ssa.Value
+	if o := ssau.CalleeObj(lc); o != nil && o.Name() == "Len" && len(lc.Common().Args) == 1 {
+		recv = lc.Common().Args[0]
+	} else if ssau.Builtin(lc) == "len" {
+		recv = lc.Common().Args[0]
+	} else {
+		return false
+	}
+	// another edge carries an element of the same container
+	for j, e := range phi.Edges {
+		if j == i {
+			continue
+		}
+		switch x := e.(type) {
+		case *ssa.Call:
+			if o := ssau.CalleeObj(x); o != nil && o.Name() == "At" && len(x.Common().Args) == 2 {
+				if sameLoadOrValue(x.Common().Args[0], recv) {
+					return true
+				}
+			}
+		case *ssa.UnOp:
+			if ia, ok := x.X.(*ssa.IndexAddr); ok && ia.X == recv {
+				return true
+			}
+		}
+	}
+	return false
+}
+
+// sameLoadOrValue: identical values, or two loads of the same address.
+func sameLoadOrValue(a, b ssa.Value) bool {
+	if a == b {
+		return true
+	}
+	ua, ok1 := a.(*ssa.UnOp)
+	ub, ok2 := b.(*ssa.UnOp)
+	return ok1 && ok2 && ua.Op == token.MUL && ub.Op == token.MUL && ua.X == ub.X
+}
+
+// extremeSign classifies the start value of a reduction: +1 = the largest float64 / +Inf in every
+// component, -1 = the smallest / -Inf, 0 = an element of the data (neutral), ok=false = anything else.
+func (w *world) extremeSign(v ssa.Value, depth int) (int, bool) {
+	if depth > 4 {
+		return 0, false
+	}
+	switch x := v.(type) {
+	case *ssa.Const:
+		if x.Value == nil || (x.Value.Kind() != constant.Float && x.Value.Kind() != constant.Int) {
+			return 0, false
+		}
+		max := constant.MakeFloat64(math.MaxFloat64)
+		switch {
+		case constant.Compare(constant.ToFloat(x.Value), token.EQL, max):
+			return 1, true
+		case constant.Compare(constant.ToFloat(x.Value), token.EQL, constant.UnaryOp(token.SUB, max, 0)):
+			return -1, true
+		}
+		return 0, false
+	case *ssa.Convert:
+		return w.extremeSign(x.X, depth)
+	case *ssa.ChangeType:
+		return w.extremeSign(x.X, depth)
+	case *ssa.UnOp:
+		if x.Op == token.SUB {
+			s, ok := w.extremeSign(x.X, depth+1)
+			return -s, ok
+		}
+		if x.Op == token.MUL {
+			// a once-assigned local
+			if al, ok := x.X.(*ssa.Alloc); ok && singleStoreAlloc(al) {
+				for _, r := range ssau.Refs(al) {
+					if st, ok := r.(*ssa.Store); ok && st.Addr == al {
+						return w.extremeSign(st.Val, depth+1)
+					}
+				}
+			}
+			// an element of the data: neutral start
+			if _, ok := x.X.(*ssa.IndexAddr); ok {
+				return 0, true
+			}
+		}
+		return 0, false
+	case *ssa.Call:
+		obj := ssau.CalleeObj(x)
+		if obj == nil || obj.Pkg() == nil {
+			return 0, false
+		}
+		args := x.Common().Args
+		switch {
+		case obj.Pkg().Path() == "math" && obj.Name() == "Inf" && len(args) == 1:
+			if c, ok := ssau.ConstInt(args[0]); ok {
+				if c >= 0 {
+					return 1, true
+				}
+				return -1, true
+			}
+			return 0, false
+		case obj.Name() == "At" && ssau.RecvNamed(obj) != nil:
+			return 0, true // first (or any) element of the iterator
+		case strings.HasPrefix(obj.Pkg().Path(), vectorPrefix) && ssau.RecvNamed(obj) == nil && len(args) > 0:
+			// vectorN.Fill(c) / vectorN.New(a,b,…): every component
+			sign, set := 0, false
+			for _, a := range args {
+				s, ok := w.extremeSign(a, depth+1)
+				if !ok || (set && s != sign) {
+					return 0, false
+				}
+				sign, set = s, true
+			}
+			return sign, set
+		}
+		// a package helper that returns the start value
+		if cal := x.Common().StaticCallee(); cal != nil && w.scan[cal] != nil && cal.Blocks != nil {
+			sign, set := 0, false
+			for _, b := range cal.Blocks {
+				rt, ok := b.Instrs[len(b.Instrs)-1].(*ssa.Return)
+				if !ok || len(rt.Results) != 1 {
+					continue
+				}
+				s, ok := w.extremeSign(rt.Results[0], depth+1)
+				if !ok || (set && s != sign) {
+					return 0, false
+				}
+				sign, set = s, true
+			}
+			return sign, set
+		}
+	case *ssa.Extract:
+		// vectors returned by a helper: (min, max) pair is not followed
+	}
+	return 0, false
 }
 
 func leadsToAcc(v ssa.Value) bool {
@@ -300,7 +538,7 @@ func (w *world) ruleMinMax(a *agg) {
 				written = w.writtenValues(fn)
 			}
 			for _, acc := range accs {
-				names, data, _ := minmaxSources(acc)
+				names, data, inits := minmaxSources(acc)
 				if len(names) == 0 {
 					a.undecide("MINMAX-1", construct, pos, "the "+f.Name()+" array is not fed by a Min/Max reduction the rule recognises")
 					return
@@ -312,6 +550,29 @@ func (w *world) ruleMinMax(a *agg) {
 					}
 					a.violate("MINMAX-1", construct, pos, fmt.Sprintf("Accessor.%s is computed with %s(): declared bounds do not bound the data (glTF validators and frustum culling rely on them)", f.Name(), strings.Join(got, "/")))
 					return
+				}
+				// the reduction starts from the neutral element: +MaxFloat64/+Inf for a minimum, -MaxFloat64/-Inf for a
+				// maximum (decided from the constant's exact value), or from an element of the data
+				wantSign := 1
+				if f.Name() == "Max" {
+					wantSign = -1
+				}
+				for _, iv := range inits {
+					sign, ok := w.extremeSign(iv, 0)
+					switch {
+					case !ok:
+						if c, isC := stripConv(iv).(*ssa.Const); isC && c.Value != nil {
+							a.violate("MINMAX-1", construct, pos, fmt.Sprintf("the %s reduction starts from the constant %s, which is not %sMaxFloat64/%sInf: when every element lies on the other side of it the declared %s is this constant, not a bound taken from the data", f.Name(), c.Value.ExactString(), map[int]string{1: "+", -1: "-"}[wantSign], map[int]string{1: "+", -1: "-"}[wantSign], strings.ToLower(f.Name())))
+						} else if fc, isCall := iv.(*ssa.Call); isCall && w.fillsWithConstants(fc) {
+							a.violate("MINMAX-1", construct, pos, fmt.Sprintf("the %s reduction starts from a vector of constants that are not %sMaxFloat64/%sInf: when every element lies on the other side the declared %s is that constant", f.Name(), map[int]string{1: "+", -1: "-"}[wantSign], map[int]string{1: "+", -1: "-"}[wantSign], strings.ToLower(f.Name())))
+						} else {
+							a.undecide("MINMAX-1", construct, pos, "the start value of the "+f.Name()+" reduction is not a form the rule recognises (±MaxFloat64, math.Inf, vectorN.Fill/New of those, an element of the data, or a helper returning one)")
+						}
+						return
+					case sign != 0 && sign != wantSign:
+						a.violate("MINMAX-1", construct, pos, fmt.Sprintf("the %s reduction starts from the %s extreme: no element can move it, the declared %s is the start value", f.Name(), map[int]string{1: "largest", -1: "smallest"}[sign], strings.ToLower(f.Name())))
+						return
+					}
 				}
 				for _, d := range data {
 					found := false
@@ -423,4 +684,18 @@ func (w *world) ruleSrc(a *agg) {
 		}
 	}
 	w.c.R.Floor("SRC-1", 3)
+}
+
+// fillsWithConstants: a vectorN.Fill/New call all of whose arguments are constants.
+func (w *world) fillsWithConstants(c *ssa.Call) bool {
+	obj := ssau.CalleeObj(c)
+	if obj == nil || obj.Pkg() == nil || !strings.HasPrefix(obj.Pkg().Path(), vectorPrefix) || len(c.Common().Args) == 0 {
+		return false
+	}
+	for _, a := range c.Common().Args {
+		if _, ok := stripConv(a).(*ssa.Const); !ok {
+			return false
+		}
+	}
+	return true
 }
